@@ -194,6 +194,22 @@ def check(ctx, floors=True, only_literals=False):
         extra = sorted(got - allowed)
         ctx.expect(not extra, "C09.8", "readers/" + f, "", "`%s` is read only in %s" % (f, sorted(got)),
                    "settings field `%s` is read in %s, outside its reviewed read sites %s: the switch may now govern other tokens" % (f, extra, sorted(allowed)))
+    # what a switch flows into, in the two IR construction sites: the codec switch is copied into the IR's flag and governs nothing else there
+    # (derives, kind, parameters are the same whether codec attributes are on or off)
+    for suf in ("create_type_ir", "upcast_composite"):
+        fns = [b for b in q.fn_by_suffix(P, suf, "scale_typegen")]
+        if len(fns) != 1:
+            ctx.bad("C09.8", "missing-anchor/" + suf, "", "expected one fn `%s`, found %d" % (suf, len(fns)))
+            continue
+        fn = fns[0]
+        t = show(Norm(fn).term(fn["body"]), 10 ** 6)
+        rest = re.sub(r"insert_codec_attributes:P\d+\.settings\.insert_codec_attributes", "", t)
+        ctx.expect("settings.insert_codec_attributes" not in rest and "insert_codec_attributes:P" in t, "C09.8", "flows/insert_codec_attributes/" + cshort(fn["path"]), fn["sp"],
+                   "in %s the codec switch is only copied into TypeIR.insert_codec_attributes" % suf,
+                   "in %s the codec switch also governs something other than the IR's flag: …%s…" % (suf, rest[max(0, rest.find("settings.insert_codec_attributes") - 200):][:400]))
+    from . import c08
+    with ctx.only(lambda k: k in ("ir-derives", "upcast/derives")):
+        c08.check(ctx)          # the derive list of an item: resolved derives (+ CompactAs iff configured and eligible) - no other switch
     # the TypeIR copy of the codec flag
     tir = set()
     for c, b in P.all_bodies(GEN):
